@@ -854,7 +854,7 @@ Definition alb_validate (n : nat) (e : env) : errs * (Z * nat) :=
   (flag_input (half <=? 1) x1, (half, List.length c)).
 
 (* ---- restraint with a changing force constant (harmonic) --------------------------------------------- *)
-Record kx := mkKx { kx_k : Q; kx_changing : bool; kx_nsteps : Z; kx_nstages : Z }.
+Record kx := mkKx { kx_k : Q; kx_changing : bool; kx_nsteps : Z; kx_nstages : Z; kx_exp : Q (* lambdaExponent: k(lambda) = k0 + (k1 - k0) lambda^exp *) }.
 
 Definition kmoving_validate (restart_out_freq : Z) (e : env) : errs * kx :=
   let '(k, p0) := ereal e "forceConstant" (1 # 1) in
@@ -862,19 +862,22 @@ Definition kmoving_validate (restart_out_freq : Z) (e : env) : errs * kx :=
   let dec := eflag e "decoupling" false in
   let tfk_given := egiven e "targetForceConstant" in
   let '(tfk, p1) := ereal e "targetForceConstant" Q0 in
-  if tfk_given && dec then (flag_input true x0, mkKx k true 0 0)
+  if tfk_given && dec then (flag_input true x0, mkKx k true 0 0 (1 # 1))
   else if negb (dec || tfk_given)
-       then (flag_input (egiven e "targetNumSteps" || egiven e "targetNumStages" || elist_given e "lambdaSchedule") x0, mkKx k false 0 0)
+       then (flag_input (egiven e "targetNumSteps" || egiven e "targetNumStages" || elist_given e "lambdaSchedule" || egiven e "lambdaExponent") x0,
+             mkKx k false 0 0 (1 # 1))                                                     (* check_keywords: not read in this case *)
   else
     let '(ns, p2) := eint TStep e "targetNumSteps" 0 in
-    if ns =? 0 then (flag_input true x0, mkKx k true ns 0)
+    if ns =? 0 then (flag_input true x0, mkKx k true ns 0 (1 # 1))
     else
       let '(ng, p3) := eint TInt e "targetNumStages" 0 in
       let '(sched, esch) := getV (elist e "lambdaSchedule") [] in
-      if elist_given e "lambdaSchedule" && (0 <? ng) then (flag_input true x0, mkKx k true ns ng)
+      if elist_given e "lambdaSchedule" && (0 <? ng) then (flag_input true x0, mkKx k true ns ng (1 # 1))
       else
         let ng' := if Nat.eqb (List.length sched) 0 then ng else Z.of_nat (List.length sched) - 1 in
-        (flag_input (p1 || p2 || p3 || esch) x0, mkKx k true ns ng').
+        let '(lx, p4) := ereal e "lambdaExponent" (1 # 1) in
+        (* repaired: a negative exponent is an error (lambda^exp is infinite at lambda = 0); below 1 it is only a warning *)
+        (flag_input (p1 || p2 || p3 || esch || p4 || Qltb lx Q0) x0, mkKx k true ns ng' lx).
 
 
 (* ================================================================================================ *)
